@@ -25,6 +25,7 @@ import (
 	"time"
 
 	"github.com/tochemey/goakt/v4/log"
+	"github.com/tochemey/goakt/v4/passivation"
 )
 
 // ---------------------------------------------------------------------------------------------- actor
@@ -116,7 +117,7 @@ func c10Settle(sys ActorSystem, pids []*PID) error {
 // ---------------------------------------------------------------------------------------------- sequences
 
 type c10Op struct {
-	Op string `json:"op"` // watch unwatch stop poison restart spawnchild
+	Op string `json:"op"` // watch unwatch stop poison passivate restart spawnchild
 	W  int    `json:"w"`  // watcher / parent
 	A  int    `json:"a"`  // watchee / subject / new child index
 }
@@ -214,7 +215,7 @@ func c10RunCase(ctx context.Context, sys ActorSystem, c c10Case) c10Out {
 	}()
 	for i := 0; i < c.N; i++ {
 		a := &c10Actor{}
-		p, err := sys.Spawn(ctx, w.name(i), a)
+		p, err := sys.Spawn(ctx, w.name(i), a, WithPassivationStrategy(passivation.NewTimeBasedStrategy(time.Hour)))
 		if err != nil {
 			out.Err = "spawn: " + err.Error()
 			return out
@@ -237,6 +238,11 @@ func c10RunCase(ctx context.Context, sys ActorSystem, c c10Case) c10Out {
 			opErr = w.pids[op.A].Shutdown(ctx)
 		case "poison":
 			opErr = Tell(ctx, w.pids[op.A], &PoisonPill{})
+		case "passivate":
+			// the passivation stop path (what the passivation manager calls when the actor has been idle)
+			if !w.pids[op.A].tryPassivation("verif") && w.pids[op.A].IsRunning() {
+				opErr = fmt.Errorf("tryPassivation refused")
+			}
 		case "restart":
 			opErr = w.pids[op.A].Restart(ctx)
 		case "spawnchild":
@@ -409,7 +415,7 @@ func TestVerifC10Race(t *testing.T) {
 	defer func() { _ = sys.Stop(ctx) }()
 	rounds := verifEnvInt("VERIF_C10_ROUNDS", 40)
 	rng := newVerifRNG(verifSeed() + 1010)
-	paths := []string{"shutdown", "poison", "parent"}
+	paths := []string{"shutdown", "poison", "parent", "passivate"}
 	for r := 0; r < rounds; r++ {
 		out := c10RaceOut{Round: r, Path: paths[r%len(paths)]}
 		parentActor := &c10Actor{}
@@ -430,7 +436,7 @@ func TestVerifC10Race(t *testing.T) {
 			}
 			target = rep.pid
 		} else {
-			target, err = sys.Spawn(ctx, targetName, &c10Actor{})
+			target, err = sys.Spawn(ctx, targetName, &c10Actor{}, WithPassivationStrategy(passivation.NewTimeBasedStrategy(time.Hour)))
 			if err != nil {
 				t.Fatalf("spawn: %v", err)
 			}
@@ -505,6 +511,8 @@ func TestVerifC10Race(t *testing.T) {
 				_ = Tell(ctx, target, &PoisonPill{})
 			case "parent":
 				_ = parent.Shutdown(ctx)
+			case "passivate":
+				target.tryPassivation("verif")
 			}
 		}()
 		close(start)
